@@ -166,7 +166,7 @@ class BasicDBusProtocol(protocol.Protocol):
 
             lines = (self._buffer + data).split(self.authDelimiter)
             self._buffer = lines.pop(-1)
-            for line in lines:
+            for idx, line in enumerate(lines):
                 if self.transport.disconnecting:
                     # this is necessary because the transport may be
                     # told to lose the connection by a line within a
@@ -183,8 +183,15 @@ class BasicDBusProtocol(protocol.Protocol):
                             self.guid = self._dbusAuth.getGUID()
                             self._dbusAuth = None
                             self.setAuthenticationSucceeded()
-                            if self._buffer:
-                                self.dataReceived(b'')
+                            # Everything following the line that completed
+                            # the authentication is binary message data,
+                            # whether or not it contains the line delimiter
+                            remaining = self.authDelimiter.join(
+                                lines[idx + 1:] + [self._buffer])
+                            self._buffer = b''
+                            if remaining:
+                                self.dataReceived(remaining)
+                            return
                     except error.DBusAuthenticationFailed as e:
                         log.msg('DBus Authentication failed: ' + str(e))
                         self.transport.loseConnection()
